@@ -1,8 +1,453 @@
 import Karp.Driver.Proto
+import Karp.Model.Term
+import Karp.Model.TermWorld
+import Karp.Spec.Finalize
 
 namespace Karp.Driver.C09
-open Lean Karp.Driver
+open Lean Karp.Driver Karp.Term
 
-def handle : Handler := fun op _ _ => .error s!"unknown op {op}"
+/-! ## decoding the shared vocabulary -/
+
+def parseFault (s : String) : Except String Fault :=
+  match s with
+  | "" | "none" => pure .ok
+  | "err" => pure .err
+  | "conflict" => pure .conflict
+  | "notfound" => pure .notFound
+  | "crash" => pure .crash
+  | _ => .error s!"bad fault class {s}"
+
+def faultOf (faults : Json) (k : String) : Except String Fault :=
+  match fldOpt faults k with
+  | none => pure .ok
+  | some v => do parseFault (← asStr v)
+
+def parseCondS (s : String) : Except String CondS :=
+  match s with
+  | "" => pure .absent
+  | "True" => pure .true_
+  | "False" => pure .false_
+  | "Unknown" => pure .unknown
+  | _ => .error s!"bad condition status {s}"
+
+def condStr : CondS → String
+  | .absent => "" | .true_ => "True" | .false_ => "False" | .unknown => "Unknown"
+
+def parseInst (s : String) : Except String Inst :=
+  match s with
+  | "running" => pure .running
+  | "terminating" => pure .terminating
+  | "gone" => pure .gone
+  | _ => .error s!"bad instance state {s}"
+
+def instStr : Inst → String
+  | .running => "running" | .terminating => "terminating" | .gone => "gone"
+
+def resStr : Res → String
+  | .none => "none" | .requeue => "requeue" | .after n => s!"after:{n}" | .crash => "crash"
+
+def actStr : Act → String
+  | .deleteClaim => "deleteClaim" | .providerGet => "providerGet" | .patchNode => "patchNode"
+  | .providerDelete => "providerDelete" | .patchClaimStatus => "patchClaimStatus"
+  | .removeNodeFinalizer => "removeNodeFinalizer" | .annotateClaim => "annotateClaim" | .deleteNode => "deleteNode"
+  | .removeClaimFinalizer => "removeClaimFinalizer" | .addClaimFinalizer => "addClaimFinalizer"
+  | .providerCreate => "providerCreate" | .patchClaim => "patchClaim"
+
+/-- the model's reading of the toleration variants (what `ToleratesDisruptedNoScheduleTaint` answers) -/
+def tolVariantTolerates (v : String) : Bool := v == "exact" || v == "equal" || v == "all" || v == "anyEffect"
+
+/-- the specification's reading: the variant as a `core/v1` toleration, judged by the Kubernetes rule -/
+def tolVariantSpec (v : String) : List Karp.Spec.Finalize.Toleration :=
+  let k := "karpenter.sh/disrupted"
+  match v with
+  | "exact" => [{ key := k, opExists := true, value := "", effect := "NoSchedule" }]
+  | "equal" => [{ key := k, opExists := false, value := "", effect := "NoSchedule" }]
+  | "all" => [{ key := "", opExists := true, value := "", effect := "" }]
+  | "anyEffect" => [{ key := k, opExists := true, value := "", effect := "" }]
+  | "wrongEffect" => [{ key := k, opExists := true, value := "", effect := "NoExecute" }]
+  | "otherKey" => [{ key := "example.com/other", opExists := true, value := "", effect := "NoSchedule" }]
+  | _ => []
+
+structure PodIn where
+  name : String
+  tol : String
+  mirror : Bool
+  phase : String
+  deletedAt : Option Int
+  pv : Int
+  pvcMissing : Bool
+  otherNode : Bool
+
+def parsePod (j : Json) : Except String PodIn := do
+  pure { name := ← strF j "name", tol := ← strF j "tol", mirror := ← boolD j "mirror" false, phase := ← strF j "phase",
+         deletedAt := ← intO j "deletedAt", pv := ← intF j "pv", pvcMissing := ← boolD j "pvcMissing" false,
+         otherNode := ← boolD j "otherNode" false }
+
+def PodIn.toModel (p : PodIn) : Pod :=
+  { name := p.name, tolerates := tolVariantTolerates p.tol, mirror := p.mirror,
+    terminal := p.phase == "Succeeded" || p.phase == "Failed", deletedAt := p.deletedAt,
+    hasVol := p.pv ≥ 0, pv := if p.pv ≥ 0 && !p.pvcMissing then some p.pv.toNat else none, onNode := !p.otherNode }
+
+def PodIn.toSpec (p : PodIn) (phase : String) (deletedAt : Option Int) : Karp.Spec.Finalize.Pod :=
+  { tolerations := tolVariantSpec p.tol, static := p.mirror, phase := phase, deletedAt := deletedAt,
+    pvs := if p.pv ≥ 0 && !p.pvcMissing then [p.pv.toNat] else [] }
+
+structure VAIn where
+  name : String
+  pv : Int
+  otherNode : Bool
+
+def parseVA (j : Json) : Except String VAIn := do
+  pure { name := ← strF j "name", pv := ← intF j "pv", otherNode := ← boolD j "otherNode" false }
+
+def VAIn.toModel (v : VAIn) : VA := { name := v.name, pv := if v.pv ≥ 0 then some v.pv.toNat else none, onNode := !v.otherNode }
+
+def parseTermAnn (j : Json) : Except String TermAnn := do
+  if ← boolD j "termBad" false then pure .bad
+  else match ← intO j "term" with
+    | none => pure .absent
+    | some t => pure (.at t)
+
+def parseClaimObs (j : Json) : Except String ClaimObs := do
+  pure { deleting := ← boolF j "deleting",
+         conds := { drained := ← parseCondS (← strF j "drained"), drainedAt := ← intF j "drainedAt",
+                    vol := ← parseCondS (← strF j "vol"), inst := ← parseCondS (← strF j "inst") },
+         term := ← parseTermAnn j, mine := !(← boolD j "otherPid" false) }
+
+def parseNodeObs (j : Json) : Except String NodeObs := do
+  pure { deleting := ← boolF j "deleting", finalizer := ← boolF j "finalizer", managed := ← boolF j "managed",
+         ready := (← strF j "ready") == "True", tainted := (← strF j "taint") == "ok", lb := ← boolF j "lb",
+         hasPid := ← boolF j "hasPid" }
+
+def parseNodeFaults (j : Json) : Except String NodeFaults := do
+  pure { listClaims := ← faultOf j "listClaims", deleteClaim := ← faultOf j "deleteClaim", patchNode := ← faultOf j "patchNode",
+         listPodsDrain := ← faultOf j "listPods#0", listVAs := ← faultOf j "listVAs", listPodsFilter := ← faultOf j "listPods#1",
+         getPVC := ← faultOf j "getPVC", patchStatus := ← faultOf j "patchClaimStatus", removeFinalizer := ← faultOf j "removeNodeFinalizer" }
+
+/-! ## judging snapshots with the independent specification -/
+
+structure Verdict where
+  ok : Bool := true
+  why : String := ""
+  sig : String := ""
+
+/-- both verdicts; the signature of a failing combination lists every violated class once (so that a new violation
+    next to a recorded finding is still reported) -/
+def Verdict.and (a b : Verdict) : Verdict :=
+  if a.ok then b
+  else if b.ok then a
+  else
+    let parts := (a.sig.splitOn "+") ++ (b.sig.splitOn "+")
+    let uniq := parts.foldl (fun acc x => if acc.contains x then acc else acc ++ [x]) []
+    let sorted := uniq.toArray.qsort (· < ·) |>.toList
+    { ok := false, why := a.why, sig := "+".intercalate sorted }
+
+/-- pods of the input (static facts) by name -/
+abbrev PodTable := List (String × PodIn)
+abbrev VATable := List (String × VAIn)
+
+def nodeSnapOf (pods : PodTable) (vas : VATable) (s : Json) : Except String Karp.Spec.Finalize.NodeSnap := do
+  let now ← intF s "now"
+  let podFacts ← arrF s "pods"
+  let specPods ← podFacts.mapM (fun pf => do
+    let name ← strF pf "name"
+    match pods.lookup name with
+    | none => throw s!"snapshot names unknown pod {name}"
+    | some p => pure (p.toSpec (← strF pf "phase") (← intO pf "deletedAt")))
+  let vaNames ← strList (← fld s "vas")
+  let specVAs ← vaNames.mapM (fun n => match vas.lookup n with
+    | none => throw s!"snapshot names unknown attachment {n}"
+    | some v => pure (if v.pv ≥ 0 then some v.pv.toNat else none))
+  pure { now := now, tainted := ← boolF s "tainted", ready := (← strF s "ready") == "True", claims := ← natF s "claims",
+         deadline := ← intO s "termTime", pods := specPods, vas := specVAs, instanceGone := (← strF s "instance") == "gone" }
+
+def judgeNodeRemoval (pods : PodTable) (vas : VATable) (s : Json) : Except String Verdict := do
+  let snap ← nodeSnapOf pods vas s
+  if Karp.Spec.Finalize.nodeRemovalOk snap then pure {}
+  else
+    let why := s!"the Node's termination finalizer was removed while: tainted={snap.tainted} drained={snap.drained} volumesOk={snap.volumesOk} instanceGone={snap.instanceGone} ready={snap.ready} claims={snap.claims}"
+    pure { ok := false, why := why, sig := if snap.claims > 1 then "node:duplicate-claims" else "node:finalizer-early" }
+
+def judgeInstanceDelete (pods : PodTable) (vas : VATable) (s : Json) : Except String Verdict := do
+  let snap ← nodeSnapOf pods vas s
+  if Karp.Spec.Finalize.instanceDeleteOk snap then pure {}
+  else pure { ok := false, sig := "node:instance-delete-early",
+              why := s!"the provider was asked to terminate the instance while: tainted={snap.tainted} drained={snap.drained} volumesOk={snap.volumesOk}" }
+
+def judgeClaimRemoval (s : Json) : Except String Verdict := do
+  let snap : Karp.Spec.Finalize.ClaimSnap :=
+    { registered := (← strF s "registered") == "True", nodes := ← natF s "nodes", launched := ← boolF s "launched",
+      instanceGone := (← strF s "instance") == "gone" }
+  if Karp.Spec.Finalize.claimRemovalOk snap then pure {}
+  else
+    let pidSet ← boolF s "pidSet"
+    let lost ← boolD s "lost" false
+    let sig := if snap.registered && snap.nodes > 0 then "claim:nodes-remain"
+      else if !pidSet then "claim:unpersisted-provider-id"
+      else if lost then "claim:instance-lost-by-relaunch" else "claim:instance-remains"
+    pure { ok := false, sig := sig,
+           why := s!"the NodeClaim's termination finalizer was removed while: registered={snap.registered} nodes={snap.nodes} launched={snap.launched} instanceGone={snap.instanceGone} providerIdPersisted={pidSet}" }
+
+def judgeSnapshots (pods : PodTable) (vas : VATable) (removed asked : List Json) : Except String Verdict := do
+  let mut v : Verdict := {}
+  for s in removed do
+    let k ← strF s "kind"
+    let r ← if k == "node" then judgeNodeRemoval pods vas s else judgeClaimRemoval s
+    v := v.and r
+  for s in asked do
+    v := v.and (← judgeInstanceDelete pods vas s)
+  pure v
+
+def Verdict.toResp (v : Verdict) (model : Option Json) : Resp :=
+  { model := model, spec := some v.ok, why := v.why,
+    extra := if v.ok then none else some (jObj [("signature", jStr v.sig)]) }
+
+/-! ## c09.node -/
+
+def nodeOp (inp impl : Json) : Except String Resp := do
+  let now ← intF inp "now"
+  let n ← parseNodeObs (← fld inp "node")
+  let claims ← (← arrF inp "claims").mapM parseClaimObs
+  let podIns ← (← arrF inp "pods").mapM parsePod
+  let vaIns ← (← arrF inp "vas").mapM parseVA
+  let inst ← parseInst (← strF inp "instance")
+  let fj ← fld inp "faults"
+  let f ← parseNodeFaults fj
+  -- a Node without provider id: `Get("")` finds nothing
+  let getOut := provAnswer (if n.hasPid then inst else .gone) (← faultOf fj "providerGet")
+  let delOut := provAnswer inst (← faultOf fj "providerDelete")
+  let o := nodeReconcile now n claims (podIns.map (·.toModel)) (vaIns.map (·.toModel)) f getOut delOut
+  -- the model's account of the end state
+  let mineIdx : List Nat := (List.range claims.length).filter (fun i => n.hasPid && (claims.getD i default).mine)
+  let single : Option Nat := match mineIdx with | [i] => some i | _ => none
+  let claimsAfter := (List.range claims.length).map (fun i =>
+    let c := claims.getD i default
+    let isSingle := single == some i
+    let conds := if isSingle then (o.conds.getD c.conds) else c.conds
+    jObj [("exists", jBool true), ("deleting", jBool (c.deleting || (isSingle && o.deletedClaim))),
+          ("drained", jStr (condStr conds.drained)), ("vol", jStr (condStr conds.vol)), ("inst", jStr (condStr conds.inst))])
+  let instAfter := if o.triggered && inst = .running then Inst.terminating else inst
+  let model := jObj [
+    ("calls", jArr (o.calls.map (fun a => jStr (actStr a)))),
+    ("result", jStr (resStr o.res)), ("err", jBool o.err),
+    ("nodeGone", jBool o.removed), ("finalizer", jBool (!o.removed && n.finalizer)),
+    ("tainted", jBool (!o.removed && (n.tainted || o.taintPatched))),
+    ("claims", jArr claimsAfter), ("instance", jStr (instStr instAfter)),
+    -- ground-truth snapshots are observations, not model outputs: echoed
+    ("removed", (fldOpt impl "removed").getD (jArr [])), ("asked", (fldOpt impl "asked").getD (jArr []))]
+  let removed ← arrD impl "removed"
+  let asked ← arrD impl "asked"
+  let v ← judgeSnapshots (podIns.map (fun p => (p.name, p))) (vaIns.map (fun v => (v.name, v))) removed asked
+  pure (v.toResp (some model))
+
+/-! ## c09.claim -/
+
+def parseClaimState (j : Json) : Except String ClaimState := do
+  let fresh ← boolD j "fresh" false
+  let term : TermAnn := match ← intO j "term" with | none => .absent | some t => .at t
+  let tgp : Option Nat := (← intO j "tgp").map Int.toNat
+  let launched ← parseCondS ((← strO j "launched").getD "")
+  let registered ← parseCondS ((← strO j "registered").getD "")
+  let inst ← parseCondS ((← strO j "inst").getD "")
+  pure { managed := ← boolF j "managed", deleting := ← boolD j "deleting" false, deletedAt := (← intO j "deletedAt").getD 0,
+         finalizer := ← boolF j "finalizer", pid := ← boolD j "pid" false, fresh := fresh,
+         launched := if fresh then .absent else launched,
+         registered := if fresh then .absent else registered,
+         inst := if fresh then .absent else inst, term := term, tgp := tgp }
+
+def parseNodeRef (j : Json) : Except String NodeRef := do
+  pure { name := ← strF j "name", deleting := ← boolD j "deleting" false, held := ← boolD j "held" false,
+         mine := !(← boolD j "otherPid" false) }
+
+def parseClaimFaults (j : Json) : Except String ClaimFaults := do
+  pure { annotate := ← faultOf j "annotateClaim", listNodes := ← faultOf j "listNodes", deleteNode := ← faultOf j "deleteNode",
+         patchStatus := ← faultOf j "patchClaimStatus", removeFinalizer := ← faultOf j "removeClaimFinalizer",
+         addFinalizer := ← faultOf j "addClaimFinalizer", patchClaim := ← faultOf j "patchClaim" }
+
+def parseCreateOut (faults : Json) : Except String CreateOut :=
+  match fldOpt faults "providerCreate" with
+  | none => pure .ok
+  | some v => do
+    match ← asStr v with
+    | "" | "none" => pure .ok
+    | "ice" => pure .ice
+    | "ncnr" => pure .ncnr
+    | "crash" => pure .crash
+    | _ => pure .err
+
+/-- the stored launch condition after a pass -/
+def launchedAfter (c : ClaimState) (o : ClaimOut) : CondS :=
+  if c.fresh then (if o.statusPersisted then (if o.launchPersisted then .true_ else .unknown) else .absent) else c.launched
+
+def termAfter (c : ClaimState) (o : ClaimOut) : TermAnn :=
+  if o.annotated then .at (c.deletedAt + (c.tgp.getD 0 : Nat)) else c.term
+
+def claimOp (inp impl : Json) : Except String Resp := do
+  let cj ← fld inp "claim"
+  let c ← parseClaimState cj
+  let nodes ← (← arrF inp "nodes").mapM parseNodeRef
+  let inst ← parseInst (← strF inp "instance")
+  let fj ← fld inp "faults"
+  let f ← parseClaimFaults fj
+  let delOut := provAnswer inst (← faultOf fj "providerDelete")
+  let createOut ← parseCreateOut fj
+  let o := claimReconcile c nodes false f delOut createOut
+  let gone := o.removed
+  let res := if !c.deleting && o.res ≠ .crash then "-" else resStr o.res
+  let nodesSorted := nodes.toArray.qsort (fun a b => a.name < b.name) |>.toList
+  let listed := c.registered = .true_ && c.pid
+  let nodesAfter := nodesSorted.map (fun n =>
+    let deletedNow := listed && n.mine && !n.deleting && o.nodesDeleted > 0
+    jObj [("name", jStr n.name), ("exists", jBool (!(deletedNow && !n.held))), ("deleting", jBool ((n.deleting || deletedNow) && !(deletedNow && !n.held)))])
+  let instAfter : Inst :=
+    if o.created then .running
+    else if o.triggered && inst = .running then .terminating else inst
+  let termJ : Json := if gone then Json.null else match termAfter c o with | .at t => jInt t | _ => Json.null
+  let model := jObj [
+    ("calls", jArr (o.calls.map (fun a => jStr (actStr a)))),
+    ("result", jStr res), ("err", jBool o.err),
+    ("exists", jBool (!gone)), ("deleting", jBool (!gone && (c.deleting || o.selfDeleted))),
+    ("finalizer", jBool (!gone && (c.finalizer || o.finalizerAdded))),
+    ("annotated", termJ),
+    ("inst", jStr (if gone then "" else condStr (if o.instPersisted then .true_ else c.inst))),
+    ("pid", jBool (!gone && (c.pid || o.launchPersisted))),
+    ("launched", jStr (if gone then "" else condStr (launchedAfter c o))),
+    ("nodesAfter", jArr nodesAfter), ("instance", jStr (instStr instAfter)),
+    ("removed", (fldOpt impl "removed").getD (jArr []))]
+  let removed ← arrD impl "removed"
+  let v ← judgeSnapshots [] [] removed []
+  pure (v.toResp (some model))
+
+/-! ## c09.protocol -/
+
+def parseProvFaults (j : Json) : Except String ProvFaults := do
+  pure { get := ← faultOf j "providerGet", delete := ← faultOf j "providerDelete", create := ← parseCreateOut j }
+
+def parseEvent (j : Json) : Except String (Event × Option PodIn) := do
+  let op ← strF j "op"
+  let fj : Json := (fldOpt j "faults").getD (jObj [])
+  match op with
+  | "rn" => pure (.reconcileNode (← parseNodeFaults fj) (← parseProvFaults fj), none)
+  | "rc" => pure (.reconcileClaim (← parseClaimFaults fj) (← parseProvFaults fj), none)
+  | "delNode" => pure (.deleteNode, none)
+  | "delClaim" => pure (.deleteClaim, none)
+  | "podGone" => pure (.podGone (← strF j "name"), none)
+  | "podTerm" => pure (.podTerminating (← strF j "name"), none)
+  | "podAdd" => do
+    let p ← parsePod (← fld j "pod")
+    pure (.podAdd p.toModel, some p)
+  | "vaGone" => pure (.vaGone (← strF j "name"), none)
+  | "tick" => pure (.tick (← natF j "d"), none)
+  | "instGone" => pure (.instanceGone, none)
+  | "ready" => pure (.setReady true, none)
+  | "notReady" => pure (.setReady false, none)
+  | "restart" => pure (.restart, none)
+  | _ => throw s!"bad event {op}"
+
+def initialWorld (inp : Json) (pods : List PodIn) (vas : List VAIn) : Except String World := do
+  let mode ← strF inp "mode"
+  let now ← intF inp "now"
+  let tgp : Option Nat := (← intO inp "tgp").map Int.toNat
+  let ready := (← strF inp "nodeReady") == "True"
+  let tainted := (← strF inp "taint") == "ok"
+  let nodePresent ← boolF inp "nodePresent"
+  let st0 : ClaimState := { managed := true, deleting := false, deletedAt := 0, finalizer := true, pid := true, fresh := false,
+                            launched := .true_, registered := .true_, inst := .absent, term := .absent, tgp := tgp }
+  let node (fin : Bool) : NodeObs := { deleting := false, finalizer := fin, managed := true, ready := ready, tainted := tainted, lb := false, hasPid := true }
+  let base : World := { now := now, node := none, claim := none, pods := pods.map (·.toModel), vas := vas.map (·.toModel), inst := .running }
+  match mode with
+  | "running" => pure { base with node := some (node true), claim := some { st := st0 } }
+  | "unregistered" =>
+    pure { base with node := if nodePresent then some (node false) else none, claim := some { st := { st0 with registered := .unknown } } }
+  | "fresh" =>
+    pure { base with inst := .gone, claim := some { st := { st0 with finalizer := false, pid := false, fresh := true, launched := .absent, registered := .absent } } }
+  | _ => throw s!"bad mode {mode}"
+
+def termJson : TermAnn → Json
+  | .at t => jInt t
+  | _ => Json.null
+
+def digestJson (phases : List (String × String)) (w : World) (info : PassInfo) (isReconcile : Bool) : Json :=
+  let nodeJ := match w.node with
+    | none => jObj [("exists", jBool false), ("deleting", jBool false), ("finalizer", jBool false), ("tainted", jBool false), ("ready", jStr "")]
+    | some n => jObj [("exists", jBool true), ("deleting", jBool n.deleting), ("finalizer", jBool n.finalizer), ("tainted", jBool n.tainted),
+                      ("ready", jStr (if n.ready then "True" else "False"))]
+  let claimJ := match w.claim with
+    | none => jObj [("exists", jBool false), ("deleting", jBool false), ("finalizer", jBool false), ("pid", jBool false), ("fresh", jBool false),
+                    ("launched", jStr ""), ("registered", jStr ""), ("drained", jStr ""), ("drainedAt", jInt 0), ("vol", jStr ""), ("inst", jStr ""),
+                    ("term", Json.null)]
+    | some c => jObj [("exists", jBool true), ("deleting", jBool c.st.deleting), ("finalizer", jBool c.st.finalizer), ("pid", jBool c.st.pid),
+                      ("fresh", jBool c.st.fresh), ("launched", jStr (condStr c.st.launched)), ("registered", jStr (condStr c.st.registered)),
+                      ("drained", jStr (condStr c.drained)), ("drainedAt", jInt (if c.drained = .absent then 0 else c.drainedAt)),
+                      ("vol", jStr (condStr c.vol)), ("inst", jStr (condStr c.st.inst)), ("term", termJson c.st.term)]
+  let podsSorted := (w.pods.filter (·.onNode)).toArray.qsort (fun a b => a.name < b.name) |>.toList
+  let podsJ := podsSorted.map (fun p => jObj [("name", jStr p.name), ("phase", jStr ((phases.lookup p.name).getD "")), ("deletedAt", jOptInt p.deletedAt)])
+  let vasSorted := ((w.vas.filter (·.onNode)).map (·.name)).toArray.qsort (· < ·) |>.toList
+  let res : String :=
+    if !isReconcile then ""
+    else if info.skipped then "skipped"
+    else if info.launchPath && info.res ≠ .crash then "-"
+    else resStr info.res
+  jObj [("now", jInt w.now), ("node", nodeJ), ("claim", claimJ), ("pods", jArr podsJ), ("vas", jArr (vasSorted.map jStr)),
+        ("instance", jStr (instStr w.inst)), ("lost", jBool w.lost),
+        ("calls", jArr (info.calls.map (fun a => jStr (actStr a)))), ("result", jStr res), ("err", jBool info.err)]
+
+def isReconcileEvent : Event → Bool
+  | .reconcileNode _ _ | .reconcileClaim _ _ => true
+  | _ => false
+
+def protoOp (inp impl : Json) : Except String Resp := do
+  let podIns ← (← arrF inp "pods").mapM parsePod
+  let vaIns ← (← arrF inp "vas").mapM parseVA
+  let evs ← (← arrF inp "events").mapM parseEvent
+  let added := evs.filterMap (·.2)
+  let allPods := podIns ++ added
+  let phases := allPods.map (fun p => (p.name, p.phase))
+  let w0 ← initialWorld inp podIns vaIns
+  -- run the model along the history
+  let mut w := w0
+  let mut digests : List Json := []
+  for (e, _) in evs do
+    let info := passInfo w e
+    w := step w e
+    digests := digests ++ [digestJson phases w info (isReconcileEvent e)]
+  -- compare with what the real controllers did, step by step
+  let implSteps ← arrD impl "steps"
+  let mut allowed := true
+  let mut why := ""
+  if implSteps.length ≠ digests.length then
+    allowed := false
+    why := s!"implementation reported {implSteps.length} steps, the history has {digests.length} events"
+  else
+    let mut i := 0
+    for (m, r) in digests.zip implSteps do
+      if allowed && !jsonEq m r then
+        allowed := false
+        why := s!"step {i}: model {m.compress} vs implementation {r.compress}"
+      i := i + 1
+  -- the property, on the ground truth
+  let removed ← arrD impl "removed"
+  let asked ← arrD impl "asked"
+  let v ← judgeSnapshots (allPods.map (fun p => (p.name, p))) (vaIns.map (fun v => (v.name, v))) removed asked
+  -- "a completed deletion never orphans a cloud instance": judged on every reported state
+  let mut orphan : Verdict := {}
+  let mut k := 0
+  for s in implSteps do
+    let claimExists ← boolF (← fld s "claim") "exists"
+    let instExists := (← strF s "instance") != "gone" || (← boolF s "lost")
+    if orphan.ok && Karp.Spec.Finalize.orphaned claimExists instExists then
+      orphan := { ok := false, sig := "orphan", why := s!"after event {k} the NodeClaim is gone while an instance launched for it still exists" }
+    k := k + 1
+  -- (an orphan is implied by, and reported as, a bad NodeClaim finalizer removal when there is one)
+  let v := if !v.ok && (v.sig.splitOn "+").any (fun x => x.startsWith "claim:") then v else v.and orphan
+  let r := v.toResp none
+  pure { r with allowed := some allowed, why := if v.ok then why else r.why }
+
+def handle : Handler := fun op inp impl =>
+  match op with
+  | "c09.node" => nodeOp inp impl
+  | "c09.claim" => claimOp inp impl
+  | "c09.protocol" => protoOp inp impl
+  | _ => .error s!"unknown op {op}"
 
 end Karp.Driver.C09
